@@ -56,10 +56,16 @@ def run_shard(args):
     return res
 
 
-def validate(ctx, fmt, module, cfg, compare, max_bytes=400000, shards=6):
+QUICK_ELF = ("x86/prefixes.elf", "x86/flow.elf", "x64/flow.elf64", "x64/test_full.elf64", "sparc/saverestore",
+             "arm/sc", "arm/sc.o", "riscv/TA.elf.signed")
+
+
+def validate(ctx, fmt, module, cfg, compare, max_bytes=400000, shards=6, only=None):
     """returns the list of (ref, data, tlc record) for the files of the corpus"""
     items = []
     for ref, path in load_corpus(fmt):
+        if only is not None and ref["origin"] != "extra" and ref["file"] not in only:
+            continue
         if not os.path.exists(path):
             ctx.count("corpus_files_missing", 1)
             continue
@@ -102,10 +108,11 @@ def validate(ctx, fmt, module, cfg, compare, max_bytes=400000, shards=6):
     return out
 
 
-def run_elf(ctx):
+def run_elf(ctx, quick=False):
     c14.quiet()
     n = 0
-    for ref, data, r in validate(ctx, "elf", "ElfRef", "ElfRef.cfg", None):
+    for ref, data, r in validate(ctx, "elf", "ElfRef", "ElfRef.cfg", None, only=QUICK_ELF if quick else None,
+                                 shards=4 if quick else 6):
         out, drifts = [], []
         try:
             p = c14.open_elf(data)
